@@ -19,7 +19,7 @@ func init() {
 			"C20-FLOAT the bit size given to AppendFloat agrees with the kind of the value. NOT covered: equality of scalar text with encoding/json (escapes, float formatting beyond bit size), embedded structs, containers longer than the unrolling (the separators' conditions are additionally compared with the loop guard).",
 		Assume:  []string{"strconv.Append* emit a JSON number for finite values", "excluded as in the property: interface fields, pointers to scalars, time.Time, func/chan"},
 		Trusted: []string{"go/types", "go/ssa"},
-		Run:     func(c *Ctx) { runC20(c); runC20Extra(c); runC20Reentrant(c); base(c, "STATE") },
+		Run:     func(c *Ctx) { runC20(c); runC20Extra(c); runC20Reentrant(c); runExemptType(c, "C20-EXEMPT"); base(c, "STATE") },
 	})
 }
 
@@ -288,6 +288,27 @@ func runC20(c *Ctx) {
 				a.n++
 				if !reObject.MatchString(dt.tokens) {
 					a.bad = append(a.bad, "struct emits "+showTokens(dt.tokens)+" — not '{' (member (',' member)*)? '}'")
+				}
+				// every member emitted is a field found exported on this very path (unexported fields
+				// are omitted, as encoding/json does; reflect refuses Interface() on them anyway)
+				for _, e := range dt.recs {
+					nm, _ := isCstStr(e.Args[0])
+					if !strings.HasSuffix(nm, "loopHandleKV") || len(e.Args) < 3 {
+						continue
+					}
+					fk := keyOf(e.Args[2])
+					if m := regexp.MustCompile(`[^\s{\[:]+\.Field\([^)]*\)\.Name`).FindString(fk); m != "" {
+						fk = m // the struct field value is keyed by its fields: take the name's expression
+					}
+					exported := false
+					for k, v := range e.PC {
+						if v == 1 && strings.HasPrefix(k, "valid.IsExported(") && strings.Contains(k, fk) {
+							exported = true
+						}
+					}
+					if !exported {
+						a.bad = append(a.bad, "the field "+shorten(fk, 60)+" is emitted as a member without having been found exported on that path (a struct whose fields are all unexported does not dump as {})")
+					}
 				}
 			default:
 				a := per["other"]
